@@ -185,6 +185,14 @@ func htmlBoundaryInputs() []string {
 			add(strings.Repeat("a", n) + "<script>alert(1)</script>")
 			add("<a title='" + strings.Repeat("a", n) + "' href=javascript:alert(1)>")
 		}
+		// characters whose case mapping changes their UTF-8 length, in names, comments and values
+		for _, r := range caseLengthChangers() {
+			w5 := strings.Repeat(r, 5)
+			for _, t := range []string{"<W>", "<a W=x>", "<!--W-->", "<?W", "<![W]>", "<a href=W:x>", "' W=x '", "<scr" + r + "pt>", "<a on" + r + "lick=1>", "<!--[" + r + "f]>", "<?" + r + "ml >"} {
+				add(strings.ReplaceAll(t, "W", w5))
+				add(strings.ReplaceAll(t, "W", r))
+			}
+		}
 		// CDATA opener case variants in front of vectors
 		for _, cd := range []string{"<![cdata[", "<![CData[", "<![cDATA[", "<![CDATA["} {
 			for _, v := range []string{"<script>alert(1)</script>", " a='><script>alert(1)</script>'", ">x<iframe>", "]]><script>"} {
